@@ -14,6 +14,13 @@ from .lib import Point, Partial, Derivative, Differential, LocatedDifferential
 import smoothmath.expression as sx
 
 
+def _sanitize(m):
+    from harness.sanitize import sanitize
+    return sanitize(m)
+
+
+
+
 class Mismatch(Exception):
     def __init__(self, sub, sig, message):
         super().__init__(message)
@@ -149,7 +156,7 @@ class World:
         self.ops += 1
         op = d["op"]
         if op == "add":
-            m = M.cap_powers(self.decode(d["node"]))
+            m = _sanitize(self.decode(d["node"]))
             self.add_model(m)
             if M.shared_nodes(m) > 0 or any(id(x) in {id(pm) for pm in self.models[:-1]} for x in M.subterms(m)[1:]):
                 self.features.add("shared")
